@@ -206,11 +206,13 @@ func runC07(c *core.Ctx) {
 		var lastPhi, nodePhi, posPhi *ssa.Phi
 		for _, cd := range ir.Conds(fn) {
 			b, ok := cd.V.(*ssa.BinOp)
-			if !ok || b.Op != token.GTR {
+			if !ok {
 				continue
 			}
-			p, isPhi := b.X.(*ssa.Phi)
-			if k, okk := ir.ConstInt(b.Y); isPhi && okk && k == 0 && p.Comment == "last_node" {
+			// last_node > 0 in any exact spelling whose true edge continues the walk (!= 0 on an unsigned, >= 1, 0 < x)
+			subj, posWhenTrue, okp := positiveTest(b)
+			p, isPhi := subj.(*ssa.Phi)
+			if okp && posWhenTrue && isPhi && p.Comment == "last_node" {
 				loopIf, lastPhi = cd.If, p
 			}
 		}
@@ -612,6 +614,40 @@ func parityTest(b *ssa.BinOp) (subject ssa.Value, oddWhenTrue bool, ok bool) {
 		return nil, false, false
 	}
 	return low.X, (b.Op == token.EQL) == (c == 1), true
+}
+
+// positiveTest recognises the exact spellings of "x > 0": x > 0, 0 < x, x >= 1, 1 <= x and, for an
+// unsigned x, x != 0 / 0 != x; and of its negation (x == 0 on an unsigned, x <= 0, x < 1).
+func positiveTest(b *ssa.BinOp) (subject ssa.Value, positiveWhenTrue bool, ok bool) {
+	x, y, op := b.X, b.Y, b.Op
+	if _, isC := ir.ConstInt(x); isC {
+		x, y = y, x
+		switch op {
+		case token.LSS:
+			op = token.GTR
+		case token.GTR:
+			op = token.LSS
+		case token.LEQ:
+			op = token.GEQ
+		case token.GEQ:
+			op = token.LEQ
+		}
+	}
+	k, isK := ir.ConstInt(y)
+	if !isK {
+		return nil, false, false
+	}
+	unsigned := false
+	if bt, isB := x.Type().Underlying().(*types.Basic); isB && bt.Info()&types.IsUnsigned != 0 {
+		unsigned = true
+	}
+	switch {
+	case op == token.GTR && k == 0, op == token.GEQ && k == 1, op == token.NEQ && k == 0 && unsigned:
+		return x, true, true
+	case op == token.LEQ && k == 0, op == token.LSS && k == 1, op == token.EQL && k == 0 && unsigned:
+		return x, false, true
+	}
+	return nil, false, false
 }
 
 // pairedOnIteration: within one iteration of the loop whose header ends in
